@@ -55,9 +55,14 @@ R1_ALLOWED_CALLERS = {
 }
 
 
-def is_banned_layout_call(t):
+def is_banned_layout_call(t, body=None):
     c = t["callee"]
     name = c.get("name")
+    if name == "default" and (c.get("trait") or "").endswith("default::Default") and body is not None:
+        st = c.get("self_ty") or ""
+        preds = body.raw.get("preds") or (body.prog.bodies.get(body.root).raw.get("preds") if body.root and body.root in body.prog.bodies else [])
+        if any(p.startswith(st + ": ndarray::Dimension") for p in (preds or [])):
+            return "Default::default() of the generic dimension type `%s` (for IxDyn this is the 1-D index [0], not ndim zeros)" % st
     path = c.get("resolved") or c.get("path") or ""
     krate = c.get("krate")
     if krate == "ndarray" and name in ND_BANNED:
@@ -83,7 +88,7 @@ def rule_r1(ctx, prog, scope=None, rule="R1"):
         ordinal = {}
         for bb, t in b.calls():
             sites += 1
-            why = is_banned_layout_call(t)
+            why = is_banned_layout_call(t, b)
             if why is None:
                 continue
             nm = callee_name(t)
